@@ -172,6 +172,9 @@ func (e *FEnc) constOf(env *Env, name string) (*Val, bool) {
 		case *types.Const:
 			return e.constToVal(o.Val(), o.Type()), true
 		case *types.Var:
+			if cv, ok := e.eng.globalInit(o); ok {
+				return e.constToVal(cv, o.Type()), true
+			}
 			// package-level variable: treated as a constant cell
 			nm := "G_" + mangle(p.Path()+"."+n)
 			e.d.add("c:"+nm, fmt.Sprintf("(declare-const %s %s)", nm, e.sortOf(o.Type())))
@@ -647,6 +650,17 @@ func (e *FEnc) evalCall(env *Env, x *Ex) (*Val, error) {
 		d := e.heapGet(env.st, dn, ds)
 		m := e.term(args[1])
 		return e.boolVal(fmt.Sprintf("(and (not (= %s nil_ref)) (select (select %s %s) %s))", m, d, m, e.term(args[0]))), nil
+	case "called": // called("pkg.Type.Method"): a call to that callee was executed on the way to this point
+		if len(x.Args) != 1 || x.Args[0].Op != "str" || env.st == nil {
+			return nil, fmt.Errorf("called(\"callee name\")")
+		}
+		t := "false"
+		for k, v := range env.st.called {
+			if matchPat(x.Args[0].Name, k) {
+				t = or(t, v)
+			}
+		}
+		return e.boolVal(t), nil
 	case "visited": // visited(m, k): key k has been visited by the (innermost) range loop over map m
 		if err := evalArgs(); err != nil {
 			return nil, err
